@@ -86,6 +86,9 @@ type Conn struct {
 	readDone chan struct{}
 	tagKnown chan struct{}
 	closed   bool
+	// closeReturned is set when Close is called on the connection and
+	// closed when the transport's Close has returned
+	closeReturned chan struct{}
 	// stopAfter > 0: the reader stops for good (without draining) once it
 	// has read that many bytes, like a reader that hits a protocol error
 	stopAfter uint64
@@ -289,12 +292,38 @@ func errStr(err error) string {
 // when this one was handed out.  Ids and lines are issued under one lock so
 // that their orders agree.
 func (s *Session) register(side string, raw net.Conn, ev string, k int) *Conn {
+	// A connection whose Close is still running is not closed yet, whatever
+	// its Done channel says: give a Close call that is about to return
+	// (Done is signalled at its very end) a moment to do so, and count the
+	// connection as open if it has not.
+	s.mu.Lock()
+	earlier := append([]*Conn(nil), s.handed[side]...)
+	s.mu.Unlock()
+	stillClosing := map[*Conn]bool{}
+	grace := time.After(400 * time.Millisecond)
+	for _, p := range earlier {
+		p.mu.Lock()
+		ch := p.closeReturned
+		p.mu.Unlock()
+		if ch == nil {
+			continue
+		}
+		select {
+		case <-ch:
+		case <-grace:
+			stillClosing[p] = true
+			grace = time.After(0)
+		}
+	}
 	s.mu.Lock()
 	defer s.mu.Unlock()
 	open := 0
 	for _, p := range s.handed[side] {
 		select {
 		case <-p.Raw.(doner).Done():
+			if stillClosing[p] {
+				open++
+			}
 		default:
 			open++
 		}
@@ -648,10 +677,12 @@ func (c *Conn) Close(why string) {
 		return
 	}
 	c.closed = true
+	ret := make(chan struct{})
+	c.closeReturned = ret
 	c.mu.Unlock()
 	c.S.Rec.Emit("closeCall", "side", c.Side, "conn", c.ID, "why", why)
 	done := make(chan error, 1)
-	go func() { done <- c.Raw.Close() }()
+	go func() { err := c.Raw.Close(); close(ret); done <- err }()
 	select {
 	case err := <-done:
 		c.S.Rec.Emit("closeRet", "side", c.Side, "conn", c.ID, "err", errStr(err))
